@@ -85,6 +85,15 @@ def task_days(days):
                 elif k in f and (f[k].__name__ != recs[0]["func"] or f[k].__module__ != recs[0]["module"]):
                     out.violation(f"functions:{k}:wrong-implementation", {"date": ds, "name": k},
                                   f"environment has {f[k].__module__}.{f[k].__name__}, valid is {recs[0]['module']}.{recs[0]['func']}")
+                elif k in f and recs[0]["decorated"]:
+                    info = getattr(f[k], "__info__", None) or {}
+                    want = {"start_date": recs[0]["start"], "end_date": recs[0]["end"], "name_in_dag": recs[0]["dag_name"],
+                            "params_key_for_rounding": recs[0]["rounding_key"], "skip_vectorization": recs[0]["skip_vectorization"]}
+                    got = {kk: info.get(kk) for kk in want}
+                    if got != want:
+                        out.violation(f"functions:{k}:metadata-differs-from-decorator", {"date": ds, "name": k}, f"__info__ {got} vs decorator {want}")
+                    if not callable(f[k]) or getattr(f[k], "__wrapped__", None) is not None:
+                        out.violation(f"functions:{k}:not-the-plain-rule", {"date": ds, "name": k}, "the environment holds a wrapper instead of the rule itself")
             if p.get("eink_st", {}).get("datum") is not None:
                 import numpy as np
                 for g in RP.groups():
@@ -121,6 +130,29 @@ def task_uncached(dates):
         if RP.digest(a, skip_datum=False) != RP.digest(b, skip_datum=False) or _fun_table(fa) != _fun_table(fb):
             out.violation("harness:yaml-seam-changes-environment", {"date": ds}, "cached and uncached YAML give different environments")
     return out.dump()
+
+
+def check_date_forms(rep):
+    """The same day given as date, ISO string, string with time, pandas Timestamp with a time of day; 1 January as int year."""
+    import pandas as pd
+
+    for ds in ("2019-06-30", "2019-07-01", "2020-02-29", "2023-01-01", "2012-09-18"):
+        d = datetime.date.fromisoformat(ds)
+        base_p, base_f = harness.fresh_env(d)
+        want = (RP.digest(base_p, skip_datum=False), _fun_table(base_f))
+        forms = {"iso-string": ds, "string-with-time": ds + " 00:00:00", "string-noon": ds + " 12:30"}  # documented forms: int, str, datetime.date
+        if d.month == 1 and d.day == 1:
+            forms["int-year"] = d.year
+        for name, val in forms.items():
+            rep.state(("date-form", ds, name))
+            try:
+                p, f = harness.fresh_env(val)
+            except Exception as e:  # noqa: BLE001
+                rep.violation(f"date-form:{name}:raises", {"date": ds, "form": name}, repr(e)[:200])
+                continue
+            rep.step()
+            if (RP.digest(p, skip_datum=False), _fun_table(f)) != want:
+                rep.violation(f"date-form:{name}:environment-differs", {"date": ds, "form": name}, f"set_up_policy_environment({val!r}) differs from set_up_policy_environment({d!r})")
 
 
 def check_overlap_rejection(rep):
@@ -233,6 +265,7 @@ def run(tier):
     for part in harness.pmap(task_uncached, [unc[i::16] for i in range(16) if unc[i::16]]):
         rep.merge(part)
     check_overlap_rejection(rep)
+    check_date_forms(rep)
     rep.bound = {"first_day": START.isoformat(), "last_day": _last_day().isoformat(), "days_checked": len(days),
                  "every_calendar_day": tier == "thorough", "groups": len(RP.groups())}
     rep.assumptions = [
